@@ -224,3 +224,38 @@ def strip_bom(line: Str, enc: Opt[Str]) -> Str:
     if (not is_none(enc)) and opt_val(enc) == 'latin-1' and len(line) >= 3 and line[:3] == '\xef\xbb\xbf':
         return line[3:]
     return line
+
+
+# ---------------------------------------------------------------- quoted_rfc records over several physical lines
+@spec
+def odd_quotes(line: Str) -> Bool:
+    return str_count(line, '"') % 2 == 1
+
+
+@spec
+def rfc_tail(s: Str) -> Str:
+    # inside an open quoted field: the following physical lines, each joined with LF, up to and including the
+    # first line with an odd number of quotes (which closes the field), or to the end of the content
+    if len(s) == 0:
+        return ''
+    if odd_quotes(first_line(s)):
+        return '\n' + first_line(s)
+    return '\n' + first_line(s) + rfc_tail(after_first_line(s))
+
+
+@spec
+def rfc_after(s: Str) -> Str:
+    # content remaining after rfc_tail(s)
+    if len(s) == 0:
+        return ''
+    if odd_quotes(first_line(s)):
+        return after_first_line(s)
+    return rfc_after(after_first_line(s))
+
+
+@spec
+def line1(s: Str, very_first: Bool, enc: Opt[Str]) -> Str:
+    # the first physical line of the remaining content as the reader sees it: a BOM is dropped from the very first line only
+    if very_first:
+        return strip_bom(first_line(s), enc)
+    return first_line(s)
